@@ -498,7 +498,10 @@ func evaluate(ast grammar.Expression, datum interface{}, opt ...Option) (bool, e
 		switch node.Operator {
 		case grammar.UnaryOpNot:
 			result, err := evaluate(node.Operand, datum, opt...)
-			return !result, err
+			if err != nil {
+				return false, err
+			}
+			return !result, nil
 		}
 	case *grammar.BinaryExpression:
 		switch node.Operator {
